@@ -106,11 +106,22 @@ def random_scenarios(c, n, first_tr, big=False):
             nn = rng.randint(1, 12)
             pct = rng.choice(PCTS + [[k, 10] for k in range(1, 10)] + [[2, 3], [1, 4], [3, 4], [1, 5], [29, 100], [57, 100]])
         rule = random_rule(rng)
+        if big and i == 0:
+            # fixed probe of the float rounding: float64(0.29) * 100 = 28.999999999999996 -> the code ejects 28 of 100, floor is 29
+            nn, pct, rule = 100, [29, 100], dict(strategy='ecount', thr=[1, 1], minAmt=1, timeout=3000, I=1000, nb=1, maxRt=0, probeNum=0)
         nodes = ['n%d' % k for k in range(1, nn + 1)]
         flaky = {x: rng.choice([0.0, 0.0, 0.3, 0.9, 1.0, 1.0]) for x in nodes}   # failure probability per node
         if big:
             flaky = {x: rng.choice([0.0, 1.0, 1.0]) for x in nodes}
+        if big and i == 0:
+            flaky = {x: 1.0 for x in nodes}
         s = [dict(op='new', tr=tr, rule=rule, pct=pct, active=rng.random() < 0.35), dict(op='tick', d=rng.choice([1, 7, 250, 999]))]
+        if big and i == 0:
+            for x in nodes:
+                s += [dict(op='req', id=1), dict(op='done', id=1, node=x, err=True)]
+            s.append(dict(op='req', id=1))
+            out.append(s)
+            continue
         free = [1, 2, 3]
         open_ = {}    # id -> None
         steps = rng.randint(15, 60) if not big else nn * rule['thr'][0] * 2 + 20
@@ -347,14 +358,18 @@ def check(c, tier, replay):
     ALLP, BOTH = [1, 2, 3, 4, 5, 6, 7], ['FALSE', 'TRUE']
     if not thorough:
         runs = [dict(nodes=3, pct=ALLP, rules=[1], actives=BOTH, maxt=5, maxreq=3, maxin=2, steps='{2}'),
-                dict(nodes=2, pct=[2, 4, 5, 7], rules=[2, 3, 4], actives=['FALSE'], maxt=4, maxreq=3, maxin=1)]
+                dict(nodes=2, pct=[2, 4, 5, 7], rules=[2, 3, 4], actives=['FALSE'], maxt=4, maxreq=3, maxin=1),
+                # pre = start from ANY set of known nodes, any of them open: every (known, open) split of 4 nodes x every percentage
+                dict(nodes=4, pct=ALLP, rules=[1], actives=BOTH, maxt=3, maxreq=1, maxin=1, steps='{2}', pre=True)]
     else:
-        runs = [dict(nodes=3, pct=ALLP, rules=[1], actives=BOTH, maxt=5, maxreq=4, maxin=2),
-                dict(nodes=4, pct=ALLP, rules=[1], actives=BOTH, maxt=4, maxreq=3, maxin=1),
-                dict(nodes=5, pct=ALLP, rules=[1], actives=['FALSE'], maxt=3, maxreq=2, maxin=1, steps='{2}'),
-                dict(nodes=1, pct=ALLP, rules=[1, 2, 3, 4], actives=BOTH, maxt=6, maxreq=6, maxin=2),
-                dict(nodes=2, pct=ALLP, rules=[2, 3, 4], actives=BOTH, maxt=5, maxreq=4, maxin=2),
-                dict(nodes=3, pct=[3, 5, 7], rules=[2, 3, 4], actives=['FALSE'], maxt=4, maxreq=3, maxin=1)]
+        runs = [dict(nodes=3, pct=ALLP, rules=[1], actives=BOTH, maxt=5, maxreq=3, maxin=2),
+                dict(nodes=3, pct=[1, 4, 5, 7], rules=[1], actives=BOTH, maxt=5, maxreq=4, maxin=2, steps='{2}'),
+                dict(nodes=4, pct=ALLP, rules=[1], actives=BOTH, maxt=5, maxreq=3, maxin=1, steps='{2}'),
+                dict(nodes=5, pct=ALLP, rules=[1], actives=BOTH, maxt=3, maxreq=1, maxin=1, steps='{2}', pre=True),
+                dict(nodes=4, pct=ALLP, rules=[1], actives=BOTH, maxt=3, maxreq=1, maxin=1, steps='{2}', pre=True),
+                dict(nodes=3, pct=ALLP, rules=[1], actives=['FALSE'], maxt=5, maxreq=2, maxin=1, steps='{2}', pre=True),
+                dict(nodes=1, pct=[1, 5, 7], rules=[1, 2, 3, 4], actives=BOTH, maxt=6, maxreq=5, maxin=2),
+                dict(nodes=2, pct=ALLP, rules=[2, 3, 4], actives=BOTH, maxt=4, maxreq=3, maxin=2)]
     for kw in runs:
         r = c.model_check('Outlier_MC', cfg_text=mc_cfg(**kw), workers=8, timeout=1500 if thorough else 170)
         if not r.completed:
@@ -373,9 +388,9 @@ def check(c, tier, replay):
     gens = [dict(nodes=3, pct=[4, 5], rules=[1], actives=BOTH, maxt=5, maxreq=3, maxin=1, steps='{2}'),
             dict(nodes=2, pct=[5], rules=[2, 3, 4], actives=['FALSE'], maxt=4, maxreq=3, maxin=1)]
     if thorough:
-        gens = [dict(nodes=3, pct=ALLP, rules=[1], actives=BOTH, maxt=5, maxreq=4, maxin=2),
-                dict(nodes=2, pct=[2, 5, 7], rules=[2, 3, 4], actives=BOTH, maxt=5, maxreq=4, maxin=2),
-                dict(nodes=4, pct=[3, 5, 6], rules=[1], actives=['FALSE'], maxt=4, maxreq=3, maxin=1)]
+        gens = [dict(nodes=3, pct=[2, 4, 5, 7], rules=[1], actives=BOTH, maxt=5, maxreq=3, maxin=2),
+                dict(nodes=2, pct=[2, 5, 7], rules=[2, 3, 4], actives=BOTH, maxt=4, maxreq=3, maxin=2),
+                dict(nodes=4, pct=[3, 5, 6], rules=[1], actives=['FALSE'], maxt=5, maxreq=3, maxin=1, steps='{2}')]
     cap = 1200 if not thorough else 30000
     for kw in gens:
         r = c.tlc('Outlier_MC', cfg_text=mc_cfg(gen=True, **kw), workers=4, timeout=900 if thorough else 120, count=False)
